@@ -7,6 +7,10 @@ mkdir -p bin work evidence replays
 (cd extract && go build -o ../bin/extract .)
 rm -f lean/PalomaModel/Gen/*.lean
 ./bin/extract -repo /repo -out lean/PalomaModel/Gen
-(cd lean && lake build PalomaModel driver)
+MODS=$(python3 -c "
+import sys; sys.path.insert(0, '.')
+from props import PROPS
+print(' '.join(sorted({m for c in PROPS.values() for m in c['lean_modules']})))")
+(cd lean && lake build PalomaModel driver PalomaModel.Props.Abi $MODS)
 (cd harness && cp /repo/go.sum . 2>/dev/null || true; go test -c -tags verif -ldflags '-X github.com/cosmos/cosmos-sdk/version.Version=v2.4.0' -o ../bin/harness.test .)
 echo setup-ok
